@@ -198,6 +198,9 @@ def r3(ctx, r):
             k = n.get("k")
             if k == "decl":
                 ops = []
+                if any(v["t"].startswith(("std::unique_lock", "std::lock_guard", "std::scoped_lock")) for v in n["vars"]):
+                    # whatever was read before the lock was taken may be stale once it is held: close() can run in between
+                    ops.append(("havoc_all", shared))
                 for v in n["vars"]:
                     i = strip_wrappers(v.get("init")) if v.get("init") else None
                     if i is not None and i.get("k") == "mcall" and last(i.get("callee", "")) in ("wait_for", "wait_until"):
@@ -508,9 +511,143 @@ def _bound_obligation(r5, f, cls, role, be, bn):
             "min(count, available): the %s can overrun the other side" % (show(bn), "full" if role == "producer" else "empty", role))
 
 
+def r6(ctx, r):
+    """DynamicRingBuffer::resize (sequential by contract): the new buffer holds the min(count, newCapacity) most recent items in
+    their order, and the indices it publishes describe exactly that.  Every index expression of the function is evaluated
+    exactly over a finite domain of (capacity, tail, count, new capacity, i) — arithmetic identities, nothing is run."""
+    import itertools
+    from ..finite import compile_expr, NotPure
+    DRB = "iora::core::DynamicRingBuffer"
+    fs = [f for f in ctx.fb().funcs(DRB + "::resize") if f.ok]
+    if not fs:
+        raise AnalysisBroken("DynamicRingBuffer::resize not found")
+    f = fs[0]
+    inits, types = {}, {}
+    for e in f.stmts():
+        if e.node.get("k") == "decl":
+            for dv in e.node["vars"]:
+                types[dv["d"]] = dv.get("t")
+                if dv.get("init") is not None:
+                    inits[dv["d"]] = dv["init"]
+    # roles: the two index snapshots and the new capacity are free; everything else is inlined down to them
+    role = {}
+    for d, i in inits.items():
+        i0 = strip_casts(strip_wrappers(i))
+        if i0.get("k") == "mcall" and last(i0.get("callee", "")) == "load":
+            role[d] = {DRB + "::_tail": "tail", DRB + "::_head": "head"}.get(field_of(i0.get("obj")))
+        elif i0.get("k") in ("call", "mcall") and last(i0.get("callee", "")) == "nextPowerOfTwo":
+            role[d] = "ncap"
+    if sorted(v for v in role.values() if v) != ["head", "ncap", "tail"]:
+        raise AnalysisBroken("resize: head/tail snapshots or the rounded new capacity not identified (%s)" % sorted(str(v) for v in role.values()))
+    loopvars = set()
+
+    def inline(n, depth=0):
+        if isinstance(n, list):
+            return [inline(x, depth) for x in n]
+        if not isinstance(n, dict):
+            return n
+        if n.get("k") == "var":
+            d = n.get("d")
+            if role.get(d):
+                return {"k": "var", "n": role[d], "t": "unsigned long", "d": -1}
+            if d in loopvars:
+                return {"k": "var", "n": "i", "t": "unsigned long", "d": -2}
+            if d in inits and depth < 8:
+                return inline(inits[d], depth + 1)
+        if n.get("k") == "member" and n["n"] == DRB + "::_mask":
+            return {"k": "var", "n": "mask", "t": "unsigned long", "d": -3}
+        if n.get("k") == "member" and n["n"] == DRB + "::_capacity":
+            return {"k": "var", "n": "cap", "t": "unsigned long", "d": -4}
+        return {k: inline(v, depth) if isinstance(v, (dict, list)) else v for k, v in n.items()}
+    NAMES = ["head", "tail", "ncap", "mask", "cap", "i"]
+
+    def ev(node, what):
+        try:
+            fn, _t, _c = compile_expr(inline(strip_casts(node)), NAMES)
+        except NotPure as ex:
+            raise AnalysisBroken("resize: %s `%s` is not a pure index expression (%s)" % (what, show(node)[:50], ex))
+        return fn
+    # the copy: one counted loop whose body is one element move
+    loops = [b for b in f.blocks.values() if b.term and b.term.get("k") in ("ForStmt", "WhileStmt") and b.cond is not None]
+    moves = [e for e in f.stmts() if e.node.get("k") in ("call", "mcall") and last(e.node.get("callee", "")) in ("move", "copy", "copy_n", "memcpy", "memmove", "move_backward", "uninitialized_move")
+             and len(e.node.get("args", [])) >= 3]
+    r.instance()
+    if len(loops) != 1 or moves:
+        raise AnalysisBroken("resize: the copy is not one per-index loop (%d loops, %d range copies) — a form this rule does not evaluate" % (len(loops), len(moves)))
+    lb = loops[0]
+    def is_counter(x):
+        x = strip_casts(x)
+        return x.get("k") == "var" and x.get("d") in inits and const_value(inits[x["d"]]) == 0
+    cp = common.cmp_oriented(lb.cond, lambda x: not is_counter(x))
+    iv = strip_casts(cp[1]) if cp else None
+    if not cp or cp[0] != "<" or iv.get("k") != "var" or const_value(inits.get(iv.get("d"), {})) != 0:
+        raise AnalysisBroken("resize: loop is not `for (i = 0; i < n; ++i)`")
+    loopvars.add(iv["d"])
+    bound = ev(cp[2], "loop bound")
+    body = [e for e in f.stmts() if e.raw.get("root") and e.node.get("k") in ("opcall", "bin") and e.node.get("op") == "=" and search(f, ("block", lb.succs[0]), lambda x, e=e: x is e, stop=lambda x: x.block is lb, eh=False) is not None]
+    if len(body) != 1:
+        raise AnalysisBroken("resize: loop body is not a single element assignment (%d)" % len(body))
+    asg = body[0].node
+    lhs, rhs = (asg["args"][0], asg["args"][1]) if asg.get("k") == "opcall" else (asg["lhs"], asg["rhs"])
+
+    def index_of(n):
+        for x in walk(n):
+            if x.get("k") in ("opcall", "idx") and (x.get("op") == "[]" or x.get("k") == "idx"):
+                return x["args"][1] if x.get("k") == "opcall" else (x.get("i") or x.get("idx") or x.get("rhs"))
+        return None
+    di, si = index_of(lhs), index_of(rhs)
+    if di is None or si is None:
+        raise AnalysisBroken("resize: element assignment `%s` not of the form new[..] = old[..]" % show(asg)[:60])
+    dst, src = ev(di, "destination index"), ev(si, "source index")
+    heads = [e for e in f.stmts() if e.node.get("k") == "mcall" and last(e.node.get("callee", "")) == "store" and field_of(e.node.get("obj")) == DRB + "::_head"]
+    tails = [e for e in f.stmts() if e.node.get("k") == "mcall" and last(e.node.get("callee", "")) == "store" and field_of(e.node.get("obj")) == DRB + "::_tail"]
+    masks = [(e, n) for (e, n, k) in common.field_writes(f, DRB + "::_mask")]
+    caps = [(e, n) for (e, n, k) in common.field_writes(f, DRB + "::_capacity")]
+    rets = common.returns(f)
+    if not (len(heads) == len(tails) == len(masks) == len(caps) == len(rets) == 1):
+        raise AnalysisBroken("resize: expected one store each to _head/_tail/_mask/_capacity and one return")
+    nh, nt = ev(heads[0].node["args"][0], "_head value"), ev(tails[0].node["args"][0], "_tail value")
+    nm, nc = ev(common.assigned_value(f, masks[0][1]), "_mask value"), ev(common.assigned_value(f, caps[0][1]), "_capacity value")
+    rv = ev(rets[0].node["v"], "return value")
+    bad = {}
+    npts = 0
+    M = 2 ** 64
+    for cap in (1, 2, 4, 8):
+        for tail in list(range(0, 2 * cap)) + [M - 3, M - 1]:
+            for count in range(0, cap + 1):
+                for ncap in (1, 2, 4, 8, 16):
+                    head = (tail + count) % M
+                    keep = min(count, ncap)
+                    env = dict(head=head, tail=tail, ncap=ncap, mask=cap - 1, cap=cap, i=0)
+                    npts += 1
+                    a = lambda fn, **kw: fn(*[dict(env, **kw)[k] for k in NAMES])
+                    if a(bound) != keep:
+                        bad.setdefault("loop bound", (env, a(bound), keep))
+                    if (a(nh) - a(nt)) % M != keep:
+                        bad.setdefault("published count", (env, (a(nh) - a(nt)) % M, keep))
+                    if a(nm) != ncap - 1 or a(nc) != ncap:
+                        bad.setdefault("published capacity/mask", (env, (a(nc), a(nm)), (ncap, ncap - 1)))
+                    if a(rv) != count - keep:
+                        bad.setdefault("dropped count", (env, a(rv), count - keep))
+                    for k in range(keep):
+                        want_src = (head - keep + k) % M & (cap - 1)
+                        if a(src, i=k) != want_src:
+                            bad.setdefault("source index", (dict(env, i=k), a(src, i=k), want_src))
+                        want_dst = (a(nt) + k) % M & (ncap - 1)
+                        if a(dst, i=k) != want_dst:
+                            bad.setdefault("destination index", (dict(env, i=k), a(dst, i=k), want_dst))
+    for what in ("loop bound", "source index", "destination index", "published count", "published capacity/mask", "dropped count"):
+        r.instance()
+        b = bad.get(what)
+        r.expect(b is None, f, body[0] if "index" in what else None, "resize: %s" % what,
+                 "DynamicRingBuffer::resize: %s is %s where the k-th kept item (oldest first among the min(count, newCapacity) most recent) requires %s, e.g. for %s: items are lost, duplicated or reordered by a resize"
+                 % (what, b[1] if b else "", b[2] if b else "", {k: v for k, v in (b[0] if b else {}).items()}), okdesc="resize: %s exact on %d states" % (what, npts))
+
+
 def run(ctx, ck):
     ck.run_rule("C10-R1", "BlockingQueue::_queue is accessed only under _mutex", "A1 lockset", lambda r: r1(ctx, r))
     ck.run_rule("C10-R2", "condition-variable discipline: no lost wake-up; every state change notifies", "A1 lockset + A2 must-pass", lambda r: r2(ctx, r))
+    ck.run_rule("C10-R6", "DynamicRingBuffer::resize keeps the most recent items in order and publishes matching indices", "exact finite-domain evaluation of the index expressions", lambda r: r6(ctx, r))
     ck.run_rule("C10-R3", "capacity bound, closed contract and FIFO end discipline on every path", "A5 predicate abstraction + A2", lambda r: r3(ctx, r))
     r4 = ck.rule("C10-R4", "SPSC index operations carry acquire/release by role", "A6 atomic-order table")
     r5 = ck.rule("C10-R5", "slot access is bounded by the full/empty test and precedes publication", "A2 dominance")
